@@ -15,7 +15,9 @@ pub fn check(cx: &Cx, rep: &mut Report) {
             continue;
         }
         // earliest stamp at which the termination may have begun
-        let mut term_begin: Option<u64> = af.t_final().filter(|_| af.task_end.is_some()).map(|t| t.0);
+        // (a graceful termination is not over before the `stopped()` hook has returned: until then every handle
+        // still says "running"; an unfinished hook falls back to the task end below)
+        let mut term_begin: Option<u64> = af.t_final().filter(|_| af.task_end.is_some()).and_then(|t| t.1);
         for e in ix.ev {
             if let K::Fault { .. } = &e.k {
                 if e.task == af.task {
